@@ -36,7 +36,7 @@ def plan(tier, seed):
     parts = 24 if tier == 'quick' else 48
     specs = [{'kind': 'structures', 'part': p, 'parts': parts,
               'modes': ['required'] if tier == 'quick' else ['required', 'all'],
-              'per_kind': 1 if tier == 'quick' else 3} for p in range(parts)]
+              'per_kind': 1 if tier == 'quick' else 3, 'all_required': tier != 'quick'} for p in range(parts)]
     specs.append({'kind': 'iti21'})
     return specs
 
@@ -101,6 +101,9 @@ def fill(parent, node, v, mode, placed, path=()):
             continue
         if c.card[0] == 0 and mode == 'required':
             continue
+        if mode == 'groups-entered' and c.card[0] == 0 and (c.kind == 'SEG' or any(
+                x is not c and x.name == c.name and x.card[0] >= 1 for x in node.children)):
+            continue      # optional groups are entered; optional segments (and optional namesakes of a required row) are not
         emitted += add_child(parent, c, v, mode, placed, path)
     return emitted
 
@@ -178,8 +181,40 @@ def drain(rec, case_hint):
     rec.counters['validate_contract_evaluations'] = _log.counts.get('validate_contract_evaluations', 0)
 
 
-def mutate(core, rng, v, m, placed, kind, node):
-    """apply one single-point mutation; -> (names any of which an error must mention, description) or None"""
+def _remove(parent, el, k):
+    """the public spellings of 'take this child out'"""
+    j = [id(c) for c in parent.children.list].index(id(el))
+    k = k % 4
+    if k == 0:
+        parent.children.remove(el)
+        return 'children.remove'
+    if k == 1:
+        del parent.children[j]
+        return 'del children[i]'
+    if k == 2:
+        parent.children.pop(j)
+        return 'children.pop(i)'
+    same = [c for c in parent.children.list if c.name == el.name]
+    if len(same) == 1 and el.name:
+        delattr(parent, el.name.lower())
+        return 'del parent.<name>'
+    parent.children.remove(el)
+    return 'children.remove'
+
+
+def mutate(core, rng, v, m, placed, kind, node, pick=None):
+    """apply one single-point mutation; -> (names any of which an error must mention, description) or None.
+    pick = (i, only_duplicated_names): the i-th required segment/group child instead of a random candidate"""
+    if kind == 'remove-required' and pick is not None:
+        dup = duplicate_names(node)
+        cands = [(parent, c.name, el) for parent, c, el, path in placed
+                 if c.card[0] >= 1 and c.name != 'MSH' and len(parent.children.indexes.get(c.name, [])) == 1 and
+                 (not pick[1] or c.name in dup)]
+        if pick[0] >= len(cands):
+            return None
+        parent, cname, el = cands[pick[0]]
+        how = _remove(parent, el, pick[0] + len(cname))
+        return [cname], '%s of %s removed (%s)' % (cname, parent.name, how)
     if kind == 'remove-required':
         cands = []
         for parent, c, el, path in placed:
@@ -207,8 +242,8 @@ def mutate(core, rng, v, m, placed, kind, node):
         lst = parent.children.indexes.get(cname, [])
         if len(lst) != 1:
             return None
-        parent.children.remove(lst[0])
-        return [cname], '%s of %s removed' % (cname, parent.name)
+        how = _remove(parent, lst[0], rng.randrange(4))
+        return [cname], '%s of %s removed (%s)' % (cname, parent.name, how)
     if kind == 'exceed-maximum':
         cands = []
         for parent, c, el, path in placed:
@@ -281,7 +316,7 @@ def mutate(core, rng, v, m, placed, kind, node):
     return None
 
 
-def judge(core, rng, v, name, node, mode, kind, refkind, rec, reference=None):
+def judge(core, rng, v, name, node, mode, kind, refkind, rec, reference=None, pick=None):
     case = {'version': v, 'structure': name, 'mode': mode, 'mutation': kind, 'reference': refkind}
     row = '%s|%s' % (v, name)
     try:
@@ -300,13 +335,13 @@ def judge(core, rng, v, name, node, mode, kind, refkind, rec, reference=None):
             errors_before = None
     if kind != 'none':
         try:
-            res = mutate(core, rng, v, m, placed, kind, node)
+            res = mutate(core, rng, v, m, placed, kind, node, pick)
         except Exception as e:
             rec.violation('mutation-raised:%s:%s' % (kind, type(e).__name__), case, {'exc': repr(e)[:200]}, row=row)
             return
         if res is None:
             rec.count('mutation_not_applicable:%s' % kind)
-            return
+            return False
         names, desc = res
         case['mutated'] = desc
     rec.evaluation((v, name, mode, kind, desc, refkind))
@@ -338,6 +373,36 @@ def judge(core, rng, v, name, node, mode, kind, refkind, rec, reference=None):
                           row=row)
 
 
+def differential_removals(core, v, name, node, rec):
+    """structures holding a choice group or a pseudo segment have no agreed conformance semantics here, so no instance is
+    known to be conforming; what can still be judged is the *difference*: taking the only occurrence of a required segment or
+    group out of an otherwise unchanged instance must add a 'Missing required child' error naming it"""
+    row = '%s|%s' % (v, name)
+    for i in range(60):
+        case = {'version': v, 'structure': name, 'mode': 'all-members-of-choices', 'mutation': 'remove-required',
+                'reference': 'standard', 'differential': i}
+        try:
+            m, placed = build(core, v, name, node, 'groups-entered')
+            e0 = report(m)[0]
+            res = mutate(core, None, v, m, placed, 'remove-required', node, pick=(i, False))
+            if res is None:
+                return
+            names, desc = res
+            e1 = report(m)[0]
+        except Exception:
+            rec.count('differential_instances_not_buildable')
+            return
+        rec.evaluation((v, name, 'differential', desc))
+        rec.count('differential_removals')
+
+        def hits(errs):
+            return sum(1 for e in errs if 'Missing required child' in e and any(e.endswith('.' + n) or n in e for n in names))
+        if hits(e1) <= hits(e0):
+            rec.violation('removed-required-child-not-reported', dict(case, mutated=desc),
+                          {'mutated': desc, 'before': e0[:4], 'after': e1[:4]}, row=row)
+            return
+
+
 def duplicate_names(node):
     out = set()
     for n in tables.walk_nodes(node):
@@ -367,6 +432,9 @@ def run_structures(spec, rec):
             why = 'unnameable-in-MSH-9'
         if why:
             rec.count('structures_skipped:' + why.split(':')[0])
+            if why == 'choice-or-pseudo-segment' and structref.msh9_for(v, name) and \
+                    (spec.get('all_required') or duplicate_names(node)):
+                differential_removals(core, v, name, node, rec)
             continue
         rec.count('structures_used')
         for mode in spec['modes']:
@@ -374,6 +442,14 @@ def run_structures(spec, rec):
             for kind in MUTATIONS[1:]:
                 for _ in range(spec['per_kind']):
                     judge(core, rng, v, name, node, mode, kind, 'standard', rec)
+            # every required segment / group child in turn (quick tier: the ones whose name the structure lists twice)
+            only_dup = not spec.get('all_required', False)
+            if not only_dup or duplicate_names(node):
+                for i in range(60):
+                    if judge(core, rng, v, name, node, mode, 'remove-required', 'standard', rec,
+                             pick=(i, only_dup)) is False:
+                        break
+                    rec.count('required_children_removed_in_turn')
         # identity profile: the standard structure handed in as a message profile must change nothing
         if rng.random() < 0.25:
             prof = {name: tables.lib(v).MESSAGES[name]}
